@@ -25,6 +25,7 @@ Inductive iexp : Type :=
 | EForever (lo : Z)               (* Forever.new(lo) *)
 | EVecVar (n : nat)               (* wN *)
 | ESlot (n : nat)                 (* itN : a shared iterator *)
+| EObj (n : nat)                  (* obN : a user-defined iterable whose iter() does real work *)
 | EMap (f : fn) (e : iexp)        (* e.iter().map(f) *)
 | EFilter (p : pr) (e : iexp).    (* e.iter().filter(p) *)
 
@@ -40,11 +41,15 @@ Inductive stmt : Type :=
 | SPop (n : nat)                             (* if wN.len() > 0 { wN.pop(); } *)
 | SSetVec (n : nat) (xs : list value)        (* wN = [..]; *)
 | SCollect (e : iexp)                        (* pv(e.iter().collect()); *)
-| SReduce (g : rd) (init : value) (e : iexp). (* print(sh(e.iter().reduce(g, init))); *)
+| SReduce (g : rd) (init : value) (e : iexp)  (* print(sh(e.iter().reduce(g, init))); *)
+| SObj (n : nat) (k : okind) (items : list value) (z : Z). (* obN = Deck|Bag|VBag|Chained.new([..] [, z]); *)
 
 Record prog : Type := mkProg {
   p_fun : bool;        (* body inside fn main() (needed for return) or at top level *)
   p_locals : bool;     (* every loop body declares a local; two locals declared after the body *)
+  p_direct : bool;     (* render x.map(f) / x.filter(p) / x.collect() / x.reduce(..) WITHOUT the explicit .iter() wherever x
+                          derives Iter: by core.yl (gen/IterFns.v) every consumer calls self.iter() itself, so the
+                          meaning is the same *)
   p_body : list stmt }.
 
 (* ---------- printing of values (helper sh of the prelude + print) ---------- *)
@@ -94,8 +99,10 @@ Definition pop (m : mstate) : mstate := m_stack m (removelast (stack m)).
 Definition marker (m : mstate) : mstate :=
   m_print m (b "#" ++ b (show_nat (length (stack m))))%list.
 
-Definition init_heap : list iobj := [ORangeIter 0 0 (-1); ORangeIter 0 0 (-1); ORangeIter 0 0 (-1)].
-Definition init_m : mstate := mkM (mkStore init_heap [[]; []]) [0; 1; 2] [0; 1] [0; 0; 0; 0; 0] [] [].
+(* it0..it2 and ob0..ob2 (slots OBJ..OBJ+2) start as (0..0).iter() *)
+Definition OBJ : nat := 3.
+Definition init_heap : list iobj := repeat (ORangeIter 0 0 (-1)) 6.
+Definition init_m : mstate := mkM (mkStore init_heap [[]; []]) [0; 1; 2; 3; 4; 5] [0; 1] [0; 0; 0; 0; 0] [] [].
 
 (* <e>.iter(): the iterator object a for loop / adapter pulls from *)
 Fixpoint eval_iter (e : iexp) (m : mstate) : nat * mstate :=
@@ -109,7 +116,8 @@ Fixpoint eval_iter (e : iexp) (m : mstate) : nat * mstate :=
   | ECount lo hi => alloc (OCount hi lo) m
   | EForever lo => alloc (OForever lo) m
   | EVecVar n => alloc (OVecIter (nth n (wvars m) 0) 0) m
-  | ESlot n => (nth n (slots m) 0, m)                     (* Iter.iter returns self *)
+  | ESlot n => let '(i, s) := obj_iter (ms m) (nth n (slots m) 0) in (i, m_store m s)
+  | EObj n => let '(i, s) := obj_iter (ms m) (nth (OBJ + n) (slots m) 0) in (i, m_store m s)
   | EMap f e1 => let '(i, m1) := eval_iter e1 m in alloc (OMap f i) m1
   | EFilter p e1 => let '(i, m1) := eval_iter e1 m in alloc (OFilter p i) m1
   end.
@@ -196,6 +204,15 @@ Definition exec_stmt (rec : nat -> list stmt -> mstate -> ctl * mstate) (k ofuel
     | (CNormal, (acc, _, s)) => (CNormal, m_print (m_store m1 s) (line_of acc))
     | (_, (_, _, s)) => (CFuel, m_store m1 s)
     end
+  | SObj n kd items z =>
+    let '(id, s) :=
+      match kd with
+      | KDeck => alloc_obj (ms m) (ODeck items 0)
+      | KBag => alloc_obj (ms m) (OBag items)
+      | KVBag => let '(vid, s1) := alloc_vec (ms m) items in alloc_obj s1 (OVBag vid)
+      | KChained => let '(vid, s1) := alloc_vec (ms m) items in alloc_obj s1 (OChained vid z)
+      end in
+    (CNormal, m_slots (m_store m s) (upd (slots m) (OBJ + n) id))
   end.
 
 Fixpoint exec (fuel ofuel : nat) (loc : bool) (d : nat) (ss : list stmt) (m : mstate) : ctl * mstate :=
@@ -239,7 +256,11 @@ Definition early_exits (p : prog) : nat :=
 Inductive stail : Type := TStop | TStopOnce | TUnknown.
 Inductive sit : Type :=
 | SRem (l : list value) (t : stail)      (* the elements still to come *)
-| SIdx (vid i : nat).                    (* index into a vector that may change *)
+| SIdx (vid i : nat)                     (* index into a vector that may change *)
+| SDeckS (cards rest : list value) (known : bool)  (* a Deck: ONE cursor shared by all its traversals; iter() rewinds it;
+                                            known = false: its position is not determined (a lazy chain over it
+                                            was left half-way) until the next rewind *)
+| SFresh (l : list value).               (* Bag / VBag / Chained: every iter() starts a new traversal of l *)
 
 Record sstate : Type := mkS {
   sheap : list sit; svecs : list (list value); sslots : list nat; swvars : list nat; scnts : list nat;
@@ -261,7 +282,7 @@ Definition s_vars (s : sstate) (v : list value) : sstate :=
   mkS (sheap s) (svecs s) (sslots s) (swvars s) (scnts s) v (sout s).
 
 Definition init_s : sstate :=
-  mkS [SRem [] TStop; SRem [] TStop; SRem [] TStop] [[]; []] [0; 1; 2] [0; 1] [0; 0; 0; 0] [VNil; VNil; VNil; VNil] [].
+  mkS (repeat (SRem [] TStop) 6) [[]; []] [0; 1; 2; 3; 4; 5] [0; 1] [0; 0; 0; 0] [VNil; VNil; VNil; VNil] [].
 
 Definition TRUNC : nat := 40.
 
@@ -276,7 +297,8 @@ Fixpoint chain_of (e : iexp) : iexp * list op :=
 Definition s_alloc (s : sstate) (x : sit) : nat * sstate := (length (sheap s), s_heap s (sheap s ++ [x])).
 
 (* None: the Spec does not determine this case *)
-Definition spec_iter (mut : bool) (e : iexp) (s : sstate) : option (nat * sstate) :=
+(* [full]: the consumer drains the iterator at once (collect / reduce) *)
+Definition spec_iter (mut full : bool) (e : iexp) (s : sstate) : option (nat * sstate) :=
   let '(x, ops) := chain_of e in
   let fresh l t := Some (s_alloc s (SRem (chain_spec ops l) t)) in
   match x with
@@ -292,9 +314,41 @@ Definition spec_iter (mut : bool) (e : iexp) (s : sstate) : option (nat * sstate
     | [] => Some (s_alloc s (SIdx (nth n (swvars s) 0) 0))
     | _ => if mut then None else fresh (nth (nth n (swvars s) 0) (svecs s) []) TStop
     end
-  | ESlot n => match ops with [] => Some (nth n (sslots s) 0, s) | _ => None end
+  | ESlot n =>
+    let id := nth n (sslots s) 0 in
+    match ops with
+    | [] =>
+      match nth_error (sheap s) id with
+      | Some (SDeckS cards _ _) => Some (id, s_heap s (upd (sheap s) id (SDeckS cards (until_stop cards) true)))
+      | _ => Some (id, s)
+      end
+    | _ => None
+    end
+  | EObj n =>
+    let id := nth (OBJ + n) (sslots s) 0 in
+    match nth_error (sheap s) id with
+    | Some (SFresh l) => fresh l TStop
+    | Some (SDeckS cards _ _) =>
+      match ops with
+      | [] => Some (id, s_heap s (upd (sheap s) id (SDeckS cards (until_stop cards) true)))
+      | _ => Some (s_alloc (s_heap s (upd (sheap s) id (SDeckS cards [] full)))
+                           (SRem (chain_spec ops (until_stop cards)) TStop))
+      end
+    | _ => None
+    end
   | _ => None
   end.
+
+(* an adapter chain over a Deck object: lazy in the language, so the Spec only speaks when nothing else can touch
+   the deck before the chain is consumed *)
+Definition deck_chain (e : iexp) (s : sstate) : bool :=
+  let '(x, ops) := chain_of e in
+  match x, ops with
+  | EObj n, _ :: _ => match nth_error (sheap s) (nth (OBJ + n) (sslots s) 0) with Some (SDeckS _ _ _) => true | _ => false end
+  | _, _ => false
+  end.
+Definition shared_base (e : iexp) : bool :=
+  match fst (chain_of e) with EObj _ | ESlot _ => true | _ => false end.
 
 Definition spec_next (id : nat) (s : sstate) : option (value * sstate) :=
   match nth_error (sheap s) id with
@@ -307,6 +361,10 @@ Definition spec_next (id : nat) (s : sstate) : option (value * sstate) :=
     | Some v => Some (v, s_heap s (upd (sheap s) id (SIdx vid (S i))))
     | None => Some (VStop, s)
     end
+  | Some (SDeckS cards (v :: l) true) => Some (v, s_heap s (upd (sheap s) id (SDeckS cards l true)))
+  | Some (SDeckS cards [] true) => Some (VStop, s)
+  | Some (SDeckS _ _ false) => None
+  | Some (SFresh _) => None
   | None => None
   end.
 
@@ -318,6 +376,20 @@ Fixpoint spec_drain (fuel : nat) (id : nat) (s : sstate) (acc : list value) : op
     | None => None
     | Some (v, s1) => if is_stop v then Some (acc, s1) else spec_drain k id s1 (acc ++ [v])%list
     end
+  end.
+
+(* does a block use an object / shared-iterator variable at all? *)
+Fixpoint touches (fuel : nat) (ss : list stmt) : bool :=
+  match fuel with
+  | O => true
+  | S k =>
+    existsb (fun s => match s with
+                      | SFor e body => shared_base e || touches k body
+                      | SIf _ _ body => touches k body
+                      | SLet _ _ | SNext _ | SObj _ _ _ _ => true
+                      | SCollect e | SReduce _ _ e => shared_base e
+                      | _ => false
+                      end) ss
   end.
 
 Definition swrap (d : nat) (run : sstate -> ctl * sstate) (s : sstate) : ctl * sstate :=
@@ -335,7 +407,7 @@ Fixpoint sexec (fuel : nat) (mut : bool) (d : nat) (ss : list stmt) (s : sstate)
         | SPrintVar v => (CNormal, s_print s (line_of (nth v (svars s) VNil)))
         | SPrintLit z => (CNormal, s_print s (num_text z))
         | SFor e body =>
-          match spec_iter mut e s with
+          match (if deck_chain e s && touches 20 body then None else spec_iter mut false e s) with
           | None => (CFuel, s)
           | Some (id, s1) =>
             let s2 := s_cnts s1 (upd (scnts s1) d 0) in
@@ -351,7 +423,7 @@ Fixpoint sexec (fuel : nat) (mut : bool) (d : nat) (ss : list stmt) (s : sstate)
         | SContinue => (CContinue, s)
         | SReturn => (CReturn, s)
         | SLet n e =>
-          match spec_iter mut e s with
+          match (if deck_chain e s then None else spec_iter mut false e s) with
           | None => (CFuel, s)
           | Some (id, s1) => (CNormal, s_slots s1 (upd (sslots s1) n id))
           end
@@ -369,7 +441,7 @@ Fixpoint sexec (fuel : nat) (mut : bool) (d : nat) (ss : list stmt) (s : sstate)
         | SSetVec n xs =>
           (CNormal, s_wvars (s_vecs s (svecs s ++ [xs])%list) (upd (swvars s) n (length (svecs s))))
         | SCollect e =>
-          match spec_iter mut e s with
+          match spec_iter mut true e s with
           | None => (CFuel, s)
           | Some (id, s1) =>
             match spec_drain k id s1 [] with
@@ -378,7 +450,7 @@ Fixpoint sexec (fuel : nat) (mut : bool) (d : nat) (ss : list stmt) (s : sstate)
             end
           end
         | SReduce g init e =>
-          match spec_iter mut e s with
+          match spec_iter mut true e s with
           | None => (CFuel, s)
           | Some (id, s1) =>
             match spec_drain k id s1 [] with
@@ -386,6 +458,13 @@ Fixpoint sexec (fuel : nat) (mut : bool) (d : nat) (ss : list stmt) (s : sstate)
             | Some (acc, s2) => (CNormal, s_print s2 (line_of (fold_left (apply_rd g) acc init)))
             end
           end
+        | SObj n kd items z =>
+          let x := match kd with
+                   | KDeck => SDeckS items (until_stop items) true
+                   | _ => SFresh (obj_elems kd items z)
+                   end in
+          let '(id, s1) := s_alloc s x in
+          (CNormal, s_slots s1 (upd (sslots s1) (OBJ + n) id))
         end in
       match r with
       | (CNormal, s') => sexec k mut d rest s'
@@ -446,6 +525,25 @@ Definition prelude : string :=
   "  #[constructor] fn new(self, lo) { self.cur = lo; }" ++ nl ++
   "  fn next(self) { var r = self.cur; self.cur = self.cur + 1; return r; }" ++ nl ++
   "}" ++ nl ++
+  "#[derive(Iter)]" ++ nl ++
+  "class Deck {" ++ nl ++
+  "  #[constructor] fn new(self, cards) { self.cards = cards; self.pos = 0; }" ++ nl ++
+  "  fn iter(self) { self.pos = 0; return self; }" ++ nl ++
+  "  fn next(self) {" ++ nl ++
+  "    if self.pos >= self.cards.len() { return StopIter.new(); }" ++ nl ++
+  "    var r = self.cards[self.pos]; self.pos = self.pos + 1; return r;" ++ nl ++
+  "  }" ++ nl ++
+  "}" ++ nl ++
+  "#[derive(Iter)]" ++ nl ++
+  "class Bag {" ++ nl ++
+  "  #[constructor] fn new(self, items) { self.items = items; }" ++ nl ++
+  "  fn iter(self) { return Script.new(self.items); }" ++ nl ++
+  "}" ++ nl ++
+  "#[derive(Iter)]" ++ nl ++
+  "class VBag {" ++ nl ++
+  "  #[constructor] fn new(self, items) { self.items = items; }" ++ nl ++
+  "  fn iter(self) { return self.items.iter(); }" ++ nl ++
+  "}" ++ nl ++
   "var Num = type(0); var Str = type(" ++ dq ++ dq ++ ");" ++ nl ++
   "fn addk(x, k) { if type(x) == Num { return x + k; } return x; }" ++ nl ++
   "fn mulk(x, k) { if type(x) == Num { return x * k; } return x; }" ++ nl ++
@@ -453,6 +551,11 @@ Definition prelude : string :=
   "fn iseven(x) { if type(x) == Num { return x % 2 == 0; } return false; }" ++ nl ++
   "fn gtk(x, k) { if type(x) == Num { return x > k; } return false; }" ++ nl ++
   "fn plus(a, v) { if type(a) == type(v) && (type(a) == Num || type(a) == Str) { return a + v; } return a; }" ++ nl ++
+  "#[derive(Iter)]" ++ nl ++
+  "class Chained {" ++ nl ++
+  "  #[constructor] fn new(self, items, k) { self.items = items; self.k = k; }" ++ nl ++
+  "  fn iter(self) { var k = self.k; return self.items.iter().filter(|x| iseven(x)).map(|x| addk(x, k)); }" ++ nl ++
+  "}" ++ nl ++
   "fn sh(v) {" ++ nl ++
   "  if v.derives(StopIter) { if v.derives(MyStop) { return " ++ dq ++ "<sub>" ++ dq ++ "; } return " ++ dq ++ "<stop>" ++ dq ++ "; }" ++ nl ++
   "  if v == nil { return " ++ dq ++ "nil" ++ dq ++ "; }" ++ nl ++
@@ -500,7 +603,15 @@ Definition r_rd (g : rd) : string :=
   | RCount => "|a, v| addk(a, 1)"
   end.
 
-Fixpoint r_iexp (e : iexp) : string :=
+(* does the VALUE of the expression derive Iter (so that it has map / filter / collect / reduce itself)? *)
+Definition iterish (e : iexp) : bool :=
+  match e with
+  | EVec _ | ETup _ | ERange _ _ | EStr _ | EVecVar _ => false
+  | _ => true
+  end.
+Definition dot_iter (dir : bool) (e : iexp) : string := if dir && iterish e then "" else ".iter()".
+
+Fixpoint r_iexp (dir : bool) (e : iexp) : string :=
   match e with
   | EVec xs => "[" ++ r_values xs ++ "]"
   | ETup xs => r_tuple xs
@@ -511,11 +622,12 @@ Fixpoint r_iexp (e : iexp) : string :=
   | EForever lo => "Forever.new(" ++ show_Z lo ++ ")"
   | EVecVar n => "w" ++ show_nat n
   | ESlot n => "it" ++ show_nat n
-  | EMap f e1 => r_iexp e1 ++ ".iter().map(" ++ r_fn f ++ ")"
-  | EFilter p e1 => r_iexp e1 ++ ".iter().filter(" ++ r_pr p ++ ")"
+  | EObj n => "ob" ++ show_nat n
+  | EMap f e1 => r_iexp dir e1 ++ dot_iter dir e1 ++ ".map(" ++ r_fn f ++ ")"
+  | EFilter p e1 => r_iexp dir e1 ++ dot_iter dir e1 ++ ".filter(" ++ r_pr p ++ ")"
   end.
 
-Fixpoint r_stmts (fuel : nat) (loc : bool) (d : nat) (ss : list stmt) : string :=
+Fixpoint r_stmts (fuel : nat) (loc dir : bool) (d : nat) (ss : list stmt) : string :=
   match fuel with
   | O => ""
   | S k =>
@@ -526,33 +638,42 @@ Fixpoint r_stmts (fuel : nat) (loc : bool) (d : nat) (ss : list stmt) : string :
       | SFor e body =>
         let c := "c" ++ show_nat d in
         "nil;" ++ nl ++ c ++ " = 0;" ++ nl ++
-        "for x" ++ show_nat d ++ " in " ++ r_iexp e ++ " {" ++ nl ++
+        "for x" ++ show_nat d ++ " in " ++ r_iexp dir e ++ " {" ++ nl ++
         c ++ " = " ++ c ++ " + 1;" ++ nl ++
         (if loc then "var t" ++ show_nat d ++ " = " ++ c ++ ";" ++ nl else "") ++
-        r_stmts k loc (S d) body ++ "}" ++ nl ++ "nil;" ++ nl
-      | SIf v n body => "if c" ++ show_nat v ++ " == " ++ show_nat n ++ " {" ++ nl ++ r_stmts k loc d body ++ "}" ++ nl
+        r_stmts k loc dir (S d) body ++ "}" ++ nl ++ "nil;" ++ nl
+      | SIf v n body => "if c" ++ show_nat v ++ " == " ++ show_nat n ++ " {" ++ nl ++ r_stmts k loc dir d body ++ "}" ++ nl
       | SBreak => "break;" ++ nl
       | SContinue => "continue;" ++ nl
       | SReturn => "return;" ++ nl
-      | SLet n e => "it" ++ show_nat n ++ " = " ++ r_iexp e ++ ".iter();" ++ nl
+      | SLet n e => "it" ++ show_nat n ++ " = " ++ r_iexp dir e ++ ".iter();" ++ nl
       | SNext n => "print(sh(it" ++ show_nat n ++ ".next()));" ++ nl
       | SPush n v => "w" ++ show_nat n ++ ".push(" ++ r_value v ++ ");" ++ nl
       | SPop n => "if w" ++ show_nat n ++ ".len() > 0 { w" ++ show_nat n ++ ".pop(); }" ++ nl
       | SSetVec n xs => "w" ++ show_nat n ++ " = [" ++ r_values xs ++ "];" ++ nl
-      | SCollect e => "pv(" ++ r_iexp e ++ ".iter().collect());" ++ nl
-      | SReduce g init e => "print(sh(" ++ r_iexp e ++ ".iter().reduce(" ++ r_rd g ++ ", " ++ r_value init ++ ")));" ++ nl
+      | SCollect e => "pv(" ++ r_iexp dir e ++ dot_iter dir e ++ ".collect());" ++ nl
+      | SReduce g init e => "print(sh(" ++ r_iexp dir e ++ dot_iter dir e ++ ".reduce(" ++ r_rd g ++ ", " ++ r_value init ++ ")));" ++ nl
+      | SObj n kd items z =>
+        "ob" ++ show_nat n ++ " = " ++
+        match kd with
+        | KDeck => "Deck.new([" ++ r_values items ++ "])"
+        | KBag => "Bag.new([" ++ r_values items ++ "])"
+        | KVBag => "VBag.new([" ++ r_values items ++ "])"
+        | KChained => "Chained.new([" ++ r_values items ++ "], " ++ show_Z z ++ ")"
+        end ++ ";" ++ nl
       end) ss)
   end.
 
 Definition decls : string :=
   "var c0 = 0; var c1 = 0; var c2 = 0; var c3 = 0;" ++ nl ++
   "var it0 = (0..0).iter(); var it1 = (0..0).iter(); var it2 = (0..0).iter();" ++ nl ++
+  "var ob0 = (0..0).iter(); var ob1 = (0..0).iter(); var ob2 = (0..0).iter();" ++ nl ++
   "var w0 = []; var w1 = [];" ++ nl.
 Definition tail_locals : string := "var z1 = 111; var z2 = 222; print(z1); print(z2);" ++ nl.
 
 (* the program text is prelude ++ render_main *)
 Definition render_main (p : prog) : string :=
-  let body := decls ++ r_stmts 30 (p_locals p) 0 (p_body p) ++ (if p_locals p then tail_locals else "") in
+  let body := decls ++ r_stmts 30 (p_locals p) (p_direct p) 0 (p_body p) ++ (if p_locals p then tail_locals else "") in
   (if p_fun p then "fn main() {" ++ nl ++ body ++ "}" ++ nl ++ "main();" ++ nl else body) ++
   "print(" ++ dq ++ "end" ++ dq ++ ");" ++ nl.
 Definition render (p : prog) : string := prelude ++ render_main p.
@@ -614,6 +735,7 @@ Fixpoint p_iexp (fuel : nat) (ts : list N) : iexp * list N :=
     | 6%N :: a :: r => (EForever (zof a), r)
     | 7%N :: n :: r => (EVecVar (N.to_nat n), r)
     | 8%N :: n :: r => (ESlot (N.to_nat n), r)
+    | 11%N :: n :: r => (EObj (N.to_nat n), r)
     | 9%N :: r => let '(f, r1) := p_fn r in let '(e, r2) := p_iexp k r1 in (EMap f e, r2)
     | 10%N :: r => let '(p, r1) := p_pr r in let '(e, r2) := p_iexp k r1 in (EFilter p e, r2)
     | _ => (EVec [], [])
@@ -649,6 +771,12 @@ Fixpoint p_stmt (fuel : nat) (ts : list N) : stmt * list N :=
     | 12%N :: r => let '(e, r1) := p_iexp IF r in (SCollect e, r1)
     | 13%N :: g :: r => let '(v, r1) := p_value r in let '(e, r2) := p_iexp IF r1 in
                          (SReduce (if N.eqb g 0 then RSum else RCount) v e, r2)
+    | 14%N :: n :: kd :: r =>
+      let '(x, r1) := p_vlist r in
+      match r1 with
+      | z :: r2 => (SObj (N.to_nat n) (match kd with 0%N => KDeck | 1%N => KBag | 2%N => KVBag | _ => KChained end) x (zof z), r2)
+      | [] => (SBreak, [])
+      end
     | _ => (SBreak, [])
     end
   end.
@@ -657,15 +785,21 @@ Fixpoint p_stmts (n : nat) (ts : list N) : list stmt :=
   | O => []
   | S j => let '(s, r) := p_stmt 30 ts in s :: p_stmts j r
   end.
-(* header: fun locals nstmts *)
+(* header: fun locals direct nstmts *)
 Definition p_prog (ts : list N) : prog :=
   match ts with
-  | f :: l :: n :: r => mkProg (negb (N.eqb f 0)) (negb (N.eqb l 0)) (p_stmts (N.to_nat n) r)
-  | _ => mkProg false false []
+  | f :: l :: dr :: n :: r => mkProg (negb (N.eqb f 0)) (negb (N.eqb l 0)) (negb (N.eqb dr 0)) (p_stmts (N.to_nat n) r)
+  | _ => mkProg false false false []
   end.
 Definition parse_prog (w : string) : prog := p_prog (List.concat (parse_nss w)).
 
 Local Open Scope string_scope.
+(* the methods of class Iter (core.yl) that the mini-language exercises on every kind of iterable:
+   iter  - SLet / the explicit .iter() of the non-direct rendering / every for loop
+   map, filter - EMap / EFilter, directly on the iterable in the direct rendering
+   collect, reduce - SCollect / SReduce
+   props/C18.v compares this list with the regenerated gen/IterFns.v: a new method of Iter is reported as uncovered *)
+Definition covered_consumers : list string := ["iter"; "map"; "collect"; "filter"; "reduce"].
 Definition show_lines (l : list (list byte)) : string := show_sep "," hex_of_bytes l.
 (* hex(render_main) | mech lines | spec lines | early exits *)
 Definition run_case (w : string) : string :=
